@@ -10,10 +10,12 @@ func TestWorker(t *testing.T) {
 	sim.WorkerMain(t, map[string]sim.Harness{
 		"C03": C03,
 		"C04": C04,
+		"C05": C05,
 		"C07": C07,
 	}, map[string]sim.Options{
 		"C03": {PanicIsViolation: true},
 		"C04": {PanicIsViolation: true},
+		"C05": {PanicIsViolation: true},
 		"C07": {PanicIsViolation: true},
 	})
 }
